@@ -112,9 +112,8 @@ def _parse(out):
         r.depth = int(m.group(1))
     r.ok = 'No error has been found' in out
     r.violated = _re_inv.findall(out)
-    if 'Temporal properties were violated' in out or 'Action property' in out and 'violated' in out:
-        for m in re.finditer(r'Action property (\S+) is violated|Temporal properties were violated', out):
-            r.violated.append(m.group(1) or 'temporal')
+    for m in re.finditer(r'Action property (\S+) is violated|Temporal propert(?:y (\S+) was|ies were) violated', out):
+        r.violated.append(m.group(1) or m.group(2) or 'temporal')
     if 'Assumption' in out and 'is false' in out:
         r.violated.append('ASSUME')
     r.deadlock = 'Deadlock reached' in out
